@@ -570,6 +570,38 @@ Section RegionFacts.
     split; [wf|]. intros x y Hm. apply bbox_sup; assumption.
   Qed.
 
+  (* the 16-bit count repair, characterised (never unfolded elsewhere) *)
+  Lemma bbox_count_le1 r : rgn_count (rgn_bbox r) <= 1.
+  Proof.
+    rewrite rgn_bbox_unfold. destruct (fold_left bbox_step r _) as [[[a b] c] d].
+    destruct ((c <? a) || (d <? b)); cbn; lia.
+  Qed.
+
+  Lemma count_fix_spec UC U : WF UC -> WF U ->
+    WF (fst (count_fix UC U)) /\ WF (snd (count_fix UC U)) /\
+    (forall x y, rgn_mem U x y = true -> rgn_mem (snd (count_fix UC U)) x y = true) /\
+    (forall x y, rgn_mem (fst (count_fix UC U)) x y = true -> rgn_mem UC x y = true) /\
+    (forall x y, rgn_mem UC x y = true ->
+                 rgn_mem (fst (count_fix UC U)) x y = true \/ rgn_mem (snd (count_fix UC U)) x y = true) /\
+    (fst (count_fix UC U) = UC \/ fst (count_fix UC U) = rgn_empty) /\
+    rgn_count (fst (count_fix UC U)) + rgn_count (snd (count_fix UC U)) + 6 < 65535.
+  Proof.
+    intros HUC HU. unfold count_fix. cbv zeta.
+    destruct (rgn_count UC + rgn_count U + 6 <? 65535) eqn:E1; cbn [fst snd].
+    { repeat split; auto. lia. }
+    destruct (rgn_count UC + rgn_count (rgn_bbox U) + 6 <? 65535) eqn:E2; cbn [fst snd].
+    { split; [exact HUC|]. split; [wf|]. split; [intros x y Hm; apply bbox_sup; assumption|].
+      repeat split; auto. lia. }
+    assert (HB : WF (rgn_bbox U)) by wf.
+    assert (HO : WF (rgn_or (rgn_bbox U) UC)) by wf.
+    split; [apply WF_empty|]. split; [wf|].
+    split; [intros x y Hm; apply bbox_sup; [exact HO|]; msimp; rewrite (bbox_sup U x y HU Hm); reflexivity|].
+    split; [intros x y Hm; rewrite rgn_mem_empty in Hm; discriminate|].
+    split; [intros x y Hm; right; apply bbox_sup; [exact HO|]; msimp; rewrite Hm; apply orb_true_r|].
+    split; [right; reflexivity|].
+    pose proof (bbox_count_le1 (rgn_or (rgn_bbox U) UC)). change (rgn_count rgn_empty) with 0. lia.
+  Qed.
+
   Lemma slice_region_spec st c M U0 sy :
     0 < sW st -> WF M -> slice_region st c M = (U0, sy) ->
     WF U0 /\ (forall x y, rgn_mem U0 x y = true -> rgn_mem M x y = true).
@@ -603,16 +635,20 @@ Section RegionFacts.
     destruct (soft_cursor st c1 U3) as [c2 U3c] eqn:Esc.
     destruct (soft_cursor_spec _ _ _ _ _ HW HH HU3 Esc)
       as (HU3c & Hsup3 & E1 & E2 & E3 & E4 & E5 & E6 & E7 & E8 & E9 & E10 & E11).
-    destruct (coalesce_spec st U3c HU3c) as [HU4 Hsup4].
-    set (U4 := coalesce st U3c) in *.
+    destruct (count_fix_spec UC U3c HUC HU3c) as (HUCf & HU3f & Hsupf & HfUC & HUCcov & _ & _).
+    set (UCf := fst (count_fix UC U3c)) in *. set (U3f := snd (count_fix UC U3c)) in *.
+    destruct (coalesce_spec st U3f HU3f) as [HU4 Hsup4'].
+    assert (Hsup4 : forall x y, rgn_mem U3c x y = true -> rgn_mem (coalesce st U3f) x y = true)
+      by (intros x y Hm; apply Hsup4', Hsupf, Hm).
+    set (U4 := coalesce st U3f) in *.
     set (c3 := if sendShape
                then set_flags c2 (cUseCopy c2) (cShape c2) false (cReady c2) (cUseNewFB c2) (cUseExt c2)
                else c2).
     destruct (rects_inside (sW st) (sH st) (filter raw_emitted (rgn_iter false false U4)) &&
               rects_inside (cPW c) (cPH c) (filter raw_emitted (rgn_iter false false U4)) &&
-              rects_inside (cPW c) (cPH c) (copy_wrects UC (cDX c) (cDY c)) &&
+              rects_inside (cPW c) (cPH c) (copy_wrects UCf (cDX c) (cDY c)) &&
               rects_inside (cPW c) (cPH c)
-                (map (fun rc => rect_shift rc (- cDX c) (- cDY c)) (copy_wrects UC (cDX c) (cDY c))));
+                (map (fun rc => rect_shift rc (- cDX c) (- cDY c)) (copy_wrects UCf (cDX c) (cDY c))));
       [|discriminate].
     intros Hs. inversion Hs; subst c' m. clear Hs.
     assert (F3 : cM c3 = M' /\ cC c3 = rgn_empty /\ cDX c3 = 0 /\ cDY c3 = 0 /\ cR c3 = rgn_empty /\
@@ -638,6 +674,11 @@ Section RegionFacts.
         assert (E3' : rgn_mem U3 x y = false).
         { destruct (rgn_mem U3 x y) eqn:E; [|reflexivity]. rewrite (Hsup4 _ _ (Hsup3 _ _ E)) in E4'. discriminate. }
         unfold M' in Hm. msimp_in Hm. rewrite E3' in Hm. cbn [negb] in Hm. rewrite andb_true_r in Hm.
+        assert (EUCf : rgn_mem UCf x y = rgn_mem UC x y).
+        { destruct (rgn_mem UC x y) eqn:EUC0.
+          - destruct (HUCcov x y EUC0) as [Hc|Hc]; [exact Hc|]. rewrite (Hsup4' _ _ Hc) in E4'. discriminate.
+          - destruct (rgn_mem UCf x y) eqn:Ef; [|reflexivity]. rewrite (HfUC _ _ Ef) in EUC0. discriminate. }
+        rewrite EUCf.
         destruct (rgn_mem UC x y) eqn:EUC.
         * (* delivered by CopyRect *)
           unfold UC in EUC. msimp_in EUC.
